@@ -47,6 +47,7 @@ def main():
         return 2
     pkgdir = m.group(1).rstrip("/")
     race = "-race" in demo_src[:2500]
+    flags = ""
     tm = re.search(r"-run\s+(\S+)", demo_src[:2500])
     runre = tm.group(1).strip("'\"") if tm else "TestSeededDemo"
     wt = tempfile.mkdtemp(prefix="evseed-", dir="/tmp")
@@ -71,6 +72,8 @@ def main():
         demo_dst = os.path.join(wt, pkgdir, "seeded_demo_eval_test.go")
         shutil.copyfile(os.path.join(sd, "demo_test.go"), demo_dst)
         flags = "-race " if race else ""
+        if re.search(r"-tags[ =]verif", demo_src[:3000]) or "//go:build verif" in demo_src[:600]:
+            flags += "-tags verif "
         rc_with, out_with = sh(f"go test -vet=off -count=1 {flags}-timeout 10m -run '{runre}' ./{pkgdir}", cwd=wt)
         # without the change
         sh(f"git apply -R {sd}/patch.diff", cwd=wt)
@@ -83,6 +86,8 @@ def main():
         print(f"demo: with change rc={rc_with}, without rc={rc_wo}")
         # existing tests with the change
         rc1, o1 = sh("go test -vet=off -count=1 -timeout 10m $(go list ./... | grep -v pkg/replication)", cwd=wt)
+        if not os.path.exists("/tmp/repl_regex.txt"):
+            shutil.copyfile(os.path.join(ROOT, "tools", "repl_regex.txt"), "/tmp/repl_regex.txt")
         rc2, o2 = sh('go test -vet=off -count=1 -timeout 10m -run "$(cat /tmp/repl_regex.txt)" ./pkg/replication', cwd=wt)
         res["existing_tests_pass_with_change"] = rc1 == 0 and rc2 == 0
         if rc1 or rc2:
@@ -112,7 +117,7 @@ def main():
         "breaks": meta.get("summary", ""),
         "needs_to_manifest": meta.get("needs", ""),
         "why_existing_tests_pass": meta.get("why_existing_tests_pass", ""),
-        "demonstration": {"file": "demo_test.go", "place_in": pkgdir, "run": f"go test -vet=off -count=1 {'-race ' if race else ''}-run '{runre}' ./{pkgdir}"},
+        "demonstration": {"file": "demo_test.go", "place_in": pkgdir, "run": f"go test -vet=off -count=1 {flags}-run '{runre}' ./{pkgdir}"},
         "origin": "independent sub-agent given only the property text and a scratch worktree (tools/SEED_BRIEF.md)",
         "what_i_ran": ["git apply patch.diff in a scratch worktree of /repo", "go build ./...",
                        "the demonstration with and without the change", "the pinned suite's stable tests with the change",
